@@ -1018,6 +1018,9 @@ class Wtp:
         SQLite database file."""
         if model is None:
             model = "wikitext"
+        # "_" and " " are the same character in page titles and get_page()
+        # looks titles up with spaces; store the same spelling
+        title = title.replace("_", " ")
         if namespace_id:
             ns_prefix = self.LOCAL_NS_NAME_BY_ID.get(namespace_id, "") + ":"
         else:
